@@ -82,16 +82,60 @@ def _ref_roots(body, local, depth=0):
     return out
 
 
+INSERT_OWNERS = ('core::delaunay_triangulation::DelaunayTriangulation::insert',
+                 'core::delaunay_triangulation::DelaunayTriangulation::insert_with_statistics',
+                 'core::triangulation::Triangulation::insert_transactional',
+                 'core::triangulation::Triangulation::insert',
+                 'core::triangulation::Triangulation::insert_with_statistics')
+
+
+def _txn_insertion(ctx, cfg, prog, mod):
+    """"whether it reports Inserted, Skipped or Err": an insertion that fails after the vertex was stored must be
+    rolled back, otherwise the result is neither the bootstrap state nor a valid complex."""
+    import pair
+    import txn
+    import c03
+    res = pair.Resources(prog, mod)
+    allown = c03.owners(prog, res)
+    own = [(q, i) for (q, i) in allown if q in INSERT_OWNERS]
+    oset = {q for q, _ in allown}
+    eng = txn.TxnEngine(prog, mod, res, infeasible=c03.INFEASIBLE, inverse_ok=c03.INVERSE)
+    eng.assume_clean = set(oset)
+    eng.solve()
+    for (q, i) in own:
+        b = prog.bodies[q]
+        roots = []
+        for _ in range(20):
+            if ('fail', 1) not in eng.summary[(q, i)]:
+                break
+            r = eng.own_root(q, i, oset)
+            if r is None or r['exit_block'] is None or r['exit_block'] in eng.cut_blocks.get(q, ()):
+                break
+            roots.append(r)
+            eng.cut_blocks.setdefault(q, set()).add(r['exit_block'])
+            eng.summary[(q, i)] = eng.analyse(q, i)
+        if not roots:
+            ctx.ob('TXN', q, cfg, True, 'outcomes %s' % sorted(eng.summary[(q, i)]), site='%s:%d' % (b.file, b.line))
+        for r in roots:
+            key = '%s|%s' % (q, r['exit'])
+            ctx.ob('TXN', key, cfg, False, 'failure exit `%s` reached with storage DIRTY (last dirtying event %s): the vertex (or '
+                   'partial cells) stay behind after Err / Skipped' % (r['exit'], r['source']), assumed=c03.ASSUMED.get(key),
+                   site='%s:%s' % (b.file, r['line']))
+    ctx.floor('insertion owners', 3, len(own), cfg)
+
+
 def run(ctx):
     ctx.rule('SAFETY', 'commit only behind the success edge of validate_after_insertion (bootstrap excepted)')
     ctx.rule('LINKS', 'link checkers and orientation check passed on the true edge of the guarantee predicates')
     ctx.rule('POSTREPAIR', 'orientation normalisation + check (+ local ridge links) passed after a per-insertion repair')
     ctx.rule('CHECK', 'Inserted is reported only behind maybe_check_after_insertion; it validates unless the policy says no')
     ctx.rule('IDENT', 'a vertex re-created on the insertion path (perturbation retry, canonicalisation) keeps the caller\'s UUID and data')
+    ctx.rule('TXN', 'a failed or skipped insertion leaves no partial state: the insertion owners are clean on failure (C03 dataflow)')
     import idkeep
     for cfg in ctx.cfgs:
         prog = ctx.prog(cfg)
         lv = gate.Leaves(prog)
+        _txn_insertion(ctx, cfg, prog, ctx.mod(cfg))
         idkeep.check(ctx, cfg, prog, ctx.mod(cfg), 'IDENT',
                      lambda o: o.rsplit('::', 1)[-1] in ('insert_transactional', 'canonicalize_vertex_for_insertion'), 2)
         for q in (SAFETY_NET, FALLBACK, VAI, VRTL, MAYBE_REPAIR, MAYBE_CHECK, NORMALIZE, ORIENT, RIDGE_LOCAL):
